@@ -40,7 +40,7 @@ class OpRunner(object):
     # ---- helpers ---------------------------------------------------------------
     def _run(self, script, argv, cwd, stdin=b'', env_extra=None, now_tick=None, tty=False, shim_kw=None):
         w = self.w
-        env = w.env(env_extra)
+        env = w.env(env_extra, script=script)
         now = None
         if now_tick is not None:
             dt = w.conc.tick_to_dt(now_tick)
@@ -239,6 +239,8 @@ class OpRunner(object):
         if r2.random() < 0.3:
             argv += r2.sample(['-d', '--directory', '-r', '-R', '--recursive', '-rd'], r2.choice([1, 1, 2]))
         if o['force']:
+            if o['inter'] == 'off' and r2.random() < 0.25:
+                argv.append('-i')       # -f given AFTER -i (an alias adds -i): -f is what was asked for
             argv.append(r2.choice(['-f', '-f', '--force']))
         if o['inter'] != 'off':
             argv.append(self.rnd.choice(['-i', '--interactive']))
@@ -306,7 +308,20 @@ class OpRunner(object):
             for d in world.DIRS:
                 for n in world.NAMES:
                     m[w.lpath(r, d, n)] = (r, d, n)
+                    al = self.alias(w.lpath(r, d, n))
+                    if al is not None:
+                        m[al] = (r, d, n)
         return m
+
+    def alias(self, pathb):
+        """the same path below the volume m1 as TRASH_VOLUMES spells that volume (see World.tv_alias), or None"""
+        ta = getattr(self.w, 'tv_alias', None)
+        if not ta:
+            return None
+        a, b = os.fsencode(ta[0]), os.fsencode(ta[1])
+        if pathb == a or pathb.startswith(a + b'/'):
+            return b + pathb[len(a):]
+        return None
 
     def parse_records(self, text):
         """split stdout into (prefix, loc|None, rawpath) records using the known location paths"""
@@ -395,7 +410,8 @@ class OpRunner(object):
         for t in w.tdirs():
             if world.tkind(t) in ('t1', 'o1'):
                 # a report names the skipped directory ($topdir/.Trash/$uid) or its parent ($topdir/.Trash) as a whole path
-                for p in (os.fsencode(w.tpath(t)), os.path.dirname(os.fsencode(w.tpath(t)))):
+                tps = [os.fsencode(w.tpath(t))] + ([self.alias(os.fsencode(w.tpath(t)))] if self.alias(os.fsencode(w.tpath(t))) else [])
+                for p in tps + [os.path.dirname(x) for x in tps]:
                     if re.search(re.escape(p) + rb'(?![A-Za-z0-9_./-])', err):
                         diag.append(t)
                         break
@@ -419,6 +435,8 @@ class OpRunner(object):
         by_path = {}
         for t in w.tdirs():
             by_path.setdefault(os.fsencode(w.tpath(t)), t)
+            if self.alias(os.fsencode(w.tpath(t))):
+                by_path.setdefault(self.alias(os.fsencode(w.tpath(t))), t)
         found, notsticky, symlink, bad = [], [], [], []
         for line in res['stdout'].split(b'\n'):
             if not line:
@@ -438,6 +456,8 @@ class OpRunner(object):
         res2 = self._run('trash-list', ['--volumes'], self.neutral_cwd(), shim_kw=shim_kw)
         vols = []
         by_vol = {os.fsencode(w.rpath(r)): r for r in world.REGIONS}
+        if getattr(w, 'tv_alias', None):
+            by_vol[os.fsencode(w.tv_alias[1])] = 'V1'
         for line in res2['stdout'].split(b'\n'):
             if line:
                 r_ = by_vol.get(line.rstrip(b'/') or b'/')
@@ -599,7 +619,8 @@ class OpRunner(object):
         cands = {}
         alt = alt or {}
         for (t, slot), (kind, ident) in slots.items():
-            for tp in [os.fsencode(w.tpath(t))] + list(alt.get(t, [])):
+            tp0 = os.fsencode(w.tpath(t))
+            for tp in [tp0] + ([self.alias(tp0)] if self.alias(tp0) else []) + list(alt.get(t, [])):
                 if kind in ('item', 'orph'):
                     cands[tp + b'/files/' + slot] = {'t': t, 'part': 'files', 'ref': ident}
                 if kind == 'item':
@@ -613,6 +634,7 @@ class OpRunner(object):
         # directory (prompts, headings) are ignored
         keys = sorted(cands, key=len, reverse=True)
         marks = [os.fsencode(w.tpath(t)) for t in w.tdirs()] + [x for v in alt.values() for x in v]
+        marks += [self.alias(m_) for m_ in list(marks) if self.alias(m_)]
         pos = 0
         while pos < len(text):
             best = None
